@@ -700,7 +700,33 @@ def root(x: f32[{2 * c + 4}], a: f32[{2 * c + 4}], b: f32[{2 * c + 4}]):
     return GenProgram(HEADER + body, "root", [], [], {"template": "shared_iter", "op_sequence": seq, "prefer_ops": ["fission", "shift_loop", "simplify"]})
 
 
-ALL = [t_temp2d, t_temp2d_call, t_two_loops, t_reduce_const, t_sliding, t_two_temps, t_split_range, t_writes, t_matmul, t_conv1d, t_blur, t_name_clash, t_config_loop, t_mod_trip, t_quasi, t_config_arg, t_config_first_iter, t_dup_blocks, t_nested_windows, t_sig_calls, t_adjacent_loops, t_config_callees, t_shared_iter]
+def t_else_moves(rng):
+    """ifs with else-branches (some with a dead branch, some nested in an else-branch, some inside a
+    loop) followed by further statements: rewrites that move code out of an else-branch
+    (eliminate_dead_code, fission inside an else-branch, lift_scope) shift everything behind them"""
+    dead = _c(rng, ["n < 1", "n > 0", "n < 1", None])
+    cond = dead or _c(rng, ["n > 2", "flag"])
+    inner_if = rng.random() < 0.5
+    els = "x[1] = 2.0\n        x[2] = 3.0"
+    if inner_if:
+        els = "if flag:\n            x[1] = 2.0\n        else:\n            x[1] = 2.5\n        x[2] = 3.0"
+    in_loop = rng.random() < 0.4
+    ifstmt = f"if {cond}:\n        x[0] = 1.0\n    else:\n        {els}"
+    if in_loop:
+        ifstmt = f"for t in seq(0, 2):\n        " + ifstmt.replace("\n    ", "\n        ")
+    body = f"""@proc
+def root(n: size, x: f32[8], flag: bool):
+    x[7] = 0.5
+    {ifstmt}
+    x[3] = 4.0
+    x[4] = 5.0
+    for i in seq(0, 2):
+        x[5] += 1.0
+"""
+    return GenProgram(HEADER + body, "root", [], [], {"template": "else_moves", "prefer_ops": ["eliminate_dead_code", "fission", "lift_scope", "eliminate_dead_code", "fission", "std.lift_if"]})
+
+
+ALL = [t_temp2d, t_temp2d_call, t_two_loops, t_reduce_const, t_sliding, t_two_temps, t_split_range, t_writes, t_matmul, t_conv1d, t_blur, t_name_clash, t_config_loop, t_mod_trip, t_quasi, t_config_arg, t_config_first_iter, t_dup_blocks, t_nested_windows, t_sig_calls, t_adjacent_loops, t_config_callees, t_shared_iter, t_else_moves]
 
 
 def any_template(rng):
